@@ -107,10 +107,30 @@ def build_world(client, rng, flat=None, no_sharing=None, rich=False):
                                                      else 0.3)]
         if u in sharing and rng.random() < 0.15:
             ag = []          # un-aggregated sharing provider
+        elif u in sharing and not ag:
+            ag = [rng.choice(w.aggs)]
         if ag:
             call('PUT', '/resource_providers/%s/aggregates' % u,
                  {'resource_provider_generation': gen[u], 'aggregates': ag})
             gen[u] += 1
+    # make sure most sharing providers can actually be used from another
+    # tree: give a provider of a different tree one of their aggregates
+    for u in sorted(sharing):
+        if rng.random() < 0.7:
+            r = client.call('GET', '/resource_providers/%s/aggregates' % u)
+            mine = r.json.get('aggregates', [])
+            others = [x for x in w.rps if x != u and x not in sharing]
+            if mine and others:
+                o = rng.choice(others)
+                r2 = client.call('GET', '/resource_providers/%s/aggregates'
+                                 % o)
+                cur = r2.json.get('aggregates', [])
+                if not set(cur) & set(mine):
+                    call('PUT', '/resource_providers/%s/aggregates' % o,
+                         {'resource_provider_generation':
+                          r2.json['resource_provider_generation'],
+                          'aggregates': sorted(set(cur) |
+                                               {rng.choice(mine)})})
     # usage from a few consumers (valid amounts only; rejected ones ignored)
     for i in range(rng.choice([0, 1, 2, 3])):
         c = mkuuid(rng)
